@@ -210,6 +210,7 @@ pub fn property() -> Property {
             "jp is built from /repo/jmespath-cli/src/main.rs by a wrapper manifest with the same dependencies (the CLI's own Cargo.lock pins crate versions that are not available offline)".into(),
             "expressions are passed as one argument after `--` or through -e; NUL bytes and non-UTF-8 arguments are not generated".into(),
         ],
-        subs: vec![Sub::Bytes(BytesSub { name: "runs", f: case_run, max_len: 1500, quick: Budget { threads: 8, cases: 400 }, thorough: Budget { threads: 16, cases: 12_000 } })],
+        minimise: None,
+        subs: vec![Sub::Bytes(BytesSub { name: "runs", f: case_run, max_len: 1500, quick: Budget { threads: 8, cases: 400 }, thorough: Budget { threads: 16, cases: 12_000 }, keep_unreproducible: false })],
     }
 }
